@@ -20,12 +20,12 @@ class C01(EgSpec):
             'explanations build: closure + explanation certificates; default build: equality matrix compared with the e-graph model and with the certificates. '
             'non-trivial = symmetry/redundancy/self-reference motif or >= 2 unions')
     streams = [
-        {'name': 'expl', 'component': 'egx', 'config': 'explanations', 'quick': 160, 'thorough': 2500},
-        {'name': 'default', 'component': 'eg', 'config': 'default', 'quick': 160, 'thorough': 2500, 'gen_extra': ['--justified']},
+        {'name': 'expl', 'component': 'egx', 'config': 'explanations', 'quick': 160, 'thorough': 2000},
+        {'name': 'default', 'component': 'eg', 'config': 'default', 'quick': 160, 'thorough': 2000, 'gen_extra': ['--justified']},
         # the executable premises of the end-to-end soundness theorem of the e-graph MODEL (EGraph/SoundMachine.v:
         # equality_sound_certified): inserted terms well formed and the guarded model run succeeds.  Where they hold, every equality
         # the model reports between handles is derivable; the implementation's equality matrix must equal the model's (stream default)
-        {'name': 'certified', 'component': 'eg', 'config': 'default', 'quick': 200, 'thorough': 2500},
+        {'name': 'certified', 'component': 'eg', 'config': 'default', 'quick': 200, 'thorough': 2000},
     ]
 
     def model_input(self, stream, case, impl_obs):
